@@ -595,6 +595,141 @@ theorem denormalisation_3d (E : Ext α) (hp : ∀ x n, E.powi x n = x ^ n) (ax a
 
 end Denorm
 
+
+/-! ## proof-deepening pass: trace refinement, "caching takes place", failed evaluations, degenerate grids, round trip -/
+section Deepen
+variable {α P ν κ C : Type} [DecidableEq ν] [DecidableEq κ]
+
+/-- the outputs produced by evaluating a sequence of points one after the other -/
+def outs (S : Spec α P ν κ C) (E : Env α P) (nbe : Bool) : St α ν κ C → List P → List (Out α)
+  | _, [] => []
+  | st, p :: ps => (evalStep S E nbe st p).2.1 :: outs S E nbe (evalStep S E nbe st p).1 ps
+
+/-- **trace refinement.**  Any evaluation sequence on the caching object yields, output by output, what memo-free
+evaluation yields (values, ValueErrors, LinAlgErrors and wrapped-function exceptions alike).  Generic in the `Spec`:
+Caching1D, 2D and 3D. -/
+theorem trace_refines_pure (S : Spec α P ν κ C) (E : Env α P) (nbe : Bool) (ps : List P) :
+    outs S E nbe St.init ps = ps.map (evalPure S E nbe) := by
+  have key : ∀ (ps : List P) (st : St α ν κ C), Inv S E st → outs S E nbe st ps = ps.map (evalPure S E nbe) := by
+    intro ps
+    induction ps with
+    | nil => intro st _; rfl
+    | cons p ps ih =>
+      intro st h
+      obtain ⟨h1, h2⟩ := evalStep_spec S E nbe st h p
+      simp only [outs, List.map_cons, h2, ih _ h1]
+  exact key ps _ (inv_init S E)
+
+example : outs (spec1 (⟨fun _ _ => none, fun x n => x ^ n⟩ : Ext ℚ) (mkAxis (fun _ => 3) 0 1 1) (mkNorm none))
+    (envOf (fun x => x) (mkNorm none)) false St.init [5, 7] = [.raise, .raise] := by
+  rw [trace_refines_pure]
+  have h : ∀ p : ℚ, 1 + EPS ≤ p → evalPure (spec1 (⟨fun _ _ => none, fun x n => x ^ n⟩ : Ext ℚ)
+      (mkAxis (fun _ => 3) 0 1 1) (mkNorm none)) (envOf (fun x => x) (mkNorm none)) false p = .raise := by
+    intro p hp
+    have hc : (spec1 (⟨fun _ _ => none, fun x n => x ^ n⟩ : Ext ℚ) (mkAxis (fun _ => 3) 0 1 1) (mkNorm none)).locate p
+        = none := outside_area_no_cell (fun _ : ℚ => 3) 0 1 1 (by norm_num) (by unfold EPS; norm_num) p (Or.inr hp)
+    unfold evalPure
+    rw [hc]
+    rfl
+  rw [List.map_cons, List.map_cons, List.map_nil, h 5 (by unfold EPS; norm_num), h 7 (by unfold EPS; norm_num)]
+
+/-- **caching takes place.**  Once an evaluation at `p` inside a cell has returned a value, evaluating `p` again is
+served from the cache: no call to the wrapped function, the state is unchanged, the same value. -/
+theorem repeat_served_from_cache (S : Spec α P ν κ C) (E : Env α P) (nbe : Bool) (st : St α ν κ C) (p : P) (c : κ)
+    (v : α) (hc : S.locate p = some c) (h : (evalStep S E nbe st p).2.1 = .val v) :
+    evalStep S E nbe (evalStep S E nbe st p).1 p = ((evalStep S E nbe st p).1, .val v, []) := by
+  unfold evalStep at h ⊢
+  simp only [hc] at h ⊢
+  cases hl : lookup c st.coeffs with
+  | some co =>
+    simp only [hl] at h ⊢
+    cases h; rfl
+  | none =>
+    simp only [hl] at h ⊢
+    by_cases hok : (sample S E (S.stencil c) st.data).2.2 = true
+    · simp only [hok, if_true] at h ⊢
+      cases hb : S.build c (List.map (readNode E (sample S E (S.stencil c) st.data).1) (S.stencil c)) with
+      | none => simp [hb] at h
+      | some co =>
+        simp only [hb] at h ⊢
+        simp only [lookup_cons_self]
+        cases h; rfl
+    · have hok' : (sample S E (S.stencil c) st.data).2.2 = false := by simpa using hok
+      simp [hok'] at h
+
+/-- **a failed evaluation stores no cell.**  Whatever goes wrong (out of range, `solve` raising, the wrapped function
+raising), the set of calculated cells and their coefficient blocks is exactly what it was. -/
+theorem failed_evaluation_stores_no_cell (S : Spec α P ν κ C) (E : Env α P) (nbe : Bool) (st : St α ν κ C) (p : P)
+    (h : ∀ v, (evalStep S E nbe st p).2.1 ≠ .val v) : (evalStep S E nbe st p).1.coeffs = st.coeffs := by
+  unfold evalStep at h ⊢
+  cases hloc : S.locate p with
+  | none =>
+    simp only [hloc] at h ⊢
+    cases nbe
+    · rfl
+    · cases hf : E.f p <;> simp [hf]
+  | some c =>
+    simp only [hloc] at h ⊢
+    cases hl : lookup c st.coeffs with
+    | some co => simp only [hl]
+    | none =>
+      simp only [hl] at h ⊢
+      by_cases hok : (sample S E (S.stencil c) st.data).2.2 = true
+      · simp only [hok, if_true] at h ⊢
+        cases hb : S.build c (List.map (readNode E (sample S E (S.stencil c) st.data).1) (S.stencil c)) with
+        | none => rfl
+        | some co => simp only [hb] at h; exact absurd rfl (h _)
+      · have hok' : (sample S E (S.stencil c) st.data).2.2 = false := by simpa using hok
+        simp [hok']
+
+end Deepen
+
+section DeepenGrid
+variable {α : Type} [Field α] [LinearOrder α] [IsStrictOrderedRing α]
+
+/-- **degenerate resolutions.**  Whatever the resolution (larger than, equal to, or a tiny fraction of the extent; any
+`int()`), the constructor's axis has at least two inner nodes, hence at least one cell, and is strictly increasing. -/
+theorem grid_never_degenerate (trunc : α → Nat) (mn mx dx : α) (h : mn < mx) (hd : EPS < dx) :
+    2 ≤ nNodes trunc mn mx dx ∧ 3 ≤ (mkAxis trunc mn mx dx).top ∧ (mkAxis trunc mn mx dx).Sorted ∧
+    (∀ p, mn ≤ p → p ≤ mx → ∃ i, cellOf (mkAxis trunc mn mx dx) p = some i ∧ 1 ≤ i ∧ i + 2 ≤ (mkAxis trunc mn mx dx).top) := by
+  refine ⟨nNodes_ge trunc mn mx dx, mkAxis_top trunc mn mx dx, mkAxis_sorted trunc mn mx dx h hd, ?_⟩
+  intro p h1 h2
+  obtain ⟨i, hi⟩ := inside_area_is_cached trunc mn mx dx h hd p h1 h2
+  obtain ⟨a, b, _, _⟩ := cellOf_some _ p i hi
+  exact ⟨i, hi, a, b⟩
+
+example : ∃ i, cellOf (mkAxis (fun _ : ℚ => 0) 0 (1 / 5) (1 / 2)) (1 / 5 : ℚ) = some i :=
+  inside_area_is_cached _ 0 (1 / 5) (1 / 2) (by norm_num) (by unfold EPS; norm_num) _ (by norm_num) (by norm_num)
+
+/-- every point of the closed 2-D caching area lies in a cell, for any pair of resolutions -/
+theorem inside_area_is_cached_2d (tx ty : α → Nat) (mnx mxx dx mny mxy dy : α) (hx : mnx < mxx) (hdx : EPS < dx)
+    (hy : mny < mxy) (hdy : EPS < dy) (p : α × α) (h1 : mnx ≤ p.1) (h2 : p.1 ≤ mxx) (h3 : mny ≤ p.2) (h4 : p.2 ≤ mxy) :
+    ∃ c, cellOf2 (mkAxis tx mnx mxx dx) (mkAxis ty mny mxy dy) p = some c := by
+  obtain ⟨i, hi⟩ := inside_area_is_cached tx mnx mxx dx hx hdx p.1 h1 h2
+  obtain ⟨j, hj⟩ := inside_area_is_cached ty mny mxy dy hy hdy p.2 h3 h4
+  exact ⟨(i, j), by simp [cellOf2, hi, hj]⟩
+
+/-- … and of the closed 3-D caching area -/
+theorem inside_area_is_cached_3d (tx ty tz : α → Nat) (mnx mxx dx mny mxy dy mnz mxz dz : α)
+    (hx : mnx < mxx) (hdx : EPS < dx) (hy : mny < mxy) (hdy : EPS < dy) (hz : mnz < mxz) (hdz : EPS < dz)
+    (p : α × α × α) (h1 : mnx ≤ p.1) (h2 : p.1 ≤ mxx) (h3 : mny ≤ p.2.1) (h4 : p.2.1 ≤ mxy)
+    (h5 : mnz ≤ p.2.2) (h6 : p.2.2 ≤ mxz) :
+    ∃ c, cellOf3 (mkAxis tx mnx mxx dx) (mkAxis ty mny mxy dy) (mkAxis tz mnz mxz dz) p = some c := by
+  obtain ⟨i, hi⟩ := inside_area_is_cached tx mnx mxx dx hx hdx p.1 h1 h2
+  obtain ⟨j, hj⟩ := inside_area_is_cached ty mny mxy dy hy hdy p.2.1 h3 h4
+  obtain ⟨k, hk⟩ := inside_area_is_cached tz mnz mxz dz hz hdz p.2.2 h5 h6
+  exact ⟨(i, j, k), by simp [cellOf3, hi, hj, hk]⟩
+
+/-- **value normalisation round trip**, for every `function_boundaries` argument including `min = max` (where
+`data_delta` falls back to 1) and `None`: denormalising a normalised value gives the value back. -/
+theorem value_normalisation_round_trip (b : Option (α × α)) (v : α) :
+    (mkNorm b).delta * (mkNorm b).apply v + (mkNorm b).dmin = v := (mkNorm_ok b).unapply v
+
+example : (mkNorm (some ((5 : ℚ), 5))).delta * (mkNorm (some ((5 : ℚ), 5))).apply 7 + (mkNorm (some ((5 : ℚ), 5))).dmin = 7 :=
+  value_normalisation_round_trip _ _
+
+end DeepenGrid
+
 /-! ## the hypotheses are satisfiable (non-vacuity) -/
 section NonVacuous
 open Classical
@@ -621,6 +756,32 @@ theorem ideal_solve_total_1d {α : Type} [Field α] [LinearOrder α] [IsStrictOr
   have hex : ∃ c, Solves (system1 ax i d).1 (system1 ax i d).2 c :=
     ⟨_, (solves_system1 ax i d _).mpr (hermite_solves ax i d hne)⟩
   simp [idealExt, hex]
+
+
+/-- **no LinAlgError in exact arithmetic (1-D).**  With a solver that returns whenever the system it is given has a
+solution (what LAPACK does on a nonsingular matrix), every evaluation of Caching1D inside a cell returns a value —
+together with `interpolates_nodes_1d` / `reproduces_affine_1d` the conclusions there become unconditional.  (2-D/3-D:
+the same statement needs existence of a solution of the tensor system, which is not formalised — uniqueness is.) -/
+theorem inside_returns_value_1d {α : Type} [Field α] [LinearOrder α] [IsStrictOrderedRing α] (E : Ext α) (hT : ∀ A b, (∃ c, Solves A b c) → (E.solve A b).isSome)
+    (ax : Axis α) (hax : AxisOK ax) (nm : Norm α) (f : α → α) (nbe : Bool) (p : α) (i : Nat)
+    (hc : cellOf ax p = some i) : ∃ v, evalPure (spec1 E ax nm) (envOf f nm) nbe p = .val v := by
+  obtain ⟨h1, h2, _, _⟩ := cellOf_some ax p i hc
+  have hne : ax.xn i ≠ ax.xn (i + 1) := (hax.xn_ne i (i + 1) (by omega) (by omega)).symm
+  unfold evalPure
+  rw [show (spec1 E ax nm).locate p = some i from hc]
+  dsimp only
+  rw [envOf_all, if_pos rfl]
+  simp only [spec1, build1]
+  have hex := hT _ _ ⟨_, (solves_system1 ax i (fun k =>
+    ((stencil1 i).map (nodeVal (spec1 E ax nm) (envOf f nm))).getD k 0) _).mpr (hermite_solves ax i _ hne)⟩
+  obtain ⟨c, hcs⟩ := Option.isSome_iff_exists.mp hex
+  simp only [spec1] at hcs
+  rw [hcs]
+  exact ⟨_, rfl⟩
+
+example (ax : Axis ℚ) (hax : AxisOK ax) (nm : Norm ℚ) (f : ℚ → ℚ) (p : ℚ) (i : Nat) (hc : cellOf ax p = some i) :
+    ∃ v, evalPure (spec1 (idealExt ℚ) ax nm) (envOf f nm) false p = .val v :=
+  inside_returns_value_1d (idealExt ℚ) (fun A b h => by simp [idealExt, h]) ax hax nm f false p i hc
 
 /-- the constructor's guarantees hold for a concrete rational grid -/
 example : AxisOK (mkAxis (fun _ : ℚ => 3) 0 1 (1 / 3)) :=
